@@ -155,6 +155,29 @@ def polarity(ctx, res):
             res.oblige(bool(un) and bool(rg), key + ":both", mod.loc(fn),
                        f"{meth} must both unregister (old side) and register "
                        f"(new side); found {len(un)} / {len(rg)}")
+        # inside the item loops the (un)registration is unconditional: a
+        # test that depends on the element (`if obj not in new`, equality
+        # with another item, ...) leaves a listener on a detached object or
+        # skips an attached one - the bookkeeping is by identity
+        par = _parents(fn)
+        for c in un + rg:
+            node, loopvars, guards = c, set(), []
+            while id(node) in par:
+                up = par[id(node)]
+                if isinstance(up, ast.If):
+                    guards.append(up.test)
+                if isinstance(up, ast.For):
+                    loopvars |= set(names_in(up.target))
+                node = up
+            dep = [g for g in guards
+                   if loopvars & {n.id for n in ast.walk(g)
+                                  if isinstance(n, ast.Name)}]
+            res.oblige(not dep, key + ":per-element-condition", mod.loc(c),
+                       f"`{norm(c)[:40]}` runs only if "
+                       f"`{norm(dep[0])[:60] if dep else ''}`: whether an "
+                       f"item is (un)registered must not depend on the item "
+                       f"(an equal but different object replacing it keeps "
+                       f"the old one registered)")
         for c in un:
             s = side_of(fn, c.args[0], oldp, newp) if c.args else "?"
             res.oblige(s == "old", key + ":unregister-side", mod.loc(c),
